@@ -144,6 +144,44 @@ def _facet_int(cell, deg=1, fam="DP"):
     return b
 
 
+def _facet_int_hex():
+    def b():
+        m, V = space("hexahedron", "DQ", 1)
+        u, v = TrialFunction(V), TestFunction(V)
+        n = FacetNormal(m)
+        f = Coefficient(V)
+        return [inner(jump(u, n), jump(v, n)) * dS + avg(f) * inner(avg(grad(u)), jump(v, n)) * dS]
+    return b
+
+
+def _facet_int_mixed():
+    def b():
+        m = mesh("triangle")
+        P2 = basix.ufl.element("P", "triangle", 2, shape=(2,))
+        P1 = basix.ufl.element("P", "triangle", 1)
+        W = FunctionSpace(m, basix.ufl.mixed_element([P2, P1]))
+        (u, p), (v, q) = ufl.TrialFunctions(W), ufl.TestFunctions(W)
+        w = Coefficient(W)
+        n = FacetNormal(m)
+        a = (p("-") * q("+") + inner(u("-"), v("-")) + inner(jump(u), n("+")) * avg(q) + p("+") * v("-")[1]) * dS
+        L = (w("-")[2] * q("-") + inner(w("-"), ufl.as_vector((v("+")[0], v("-")[1], q("-")))) + w("+")[1] * q("+")) * dS
+        return [a, L]
+    return b
+
+
+def _facet_int_cellsize(cell):
+    def b():
+        m, V = space(cell, "P", 1)
+        v = TestFunction(V)
+        f = Coefficient(V)
+        h = ufl.CellDiameter(m)
+        r = ufl.Circumradius(m)
+        forms = [(h("-") * v("+") + h("+") * r("-") * v("-") + ufl.MaxCellEdgeLength(m)("-") * f("-") * v("+")
+                  + ufl.MinCellEdgeLength(m)("+") * f("+") * v("-")) * dS]
+        return forms
+    return b
+
+
 def _int_facet_two_rules(order):
     def b():
         m, V = space("triangle", "P", 1)
@@ -317,6 +355,18 @@ def _derivative_drop():
     return b
 
 
+def _derivative_drop_first():
+    def b():
+        m, V = space("triangle", "P", 2)
+        h = Coefficient(V)  # created (numbered) first, drops out of the derivative
+        f = Coefficient(V)
+        g = Coefficient(space("triangle", "P", 1)[1]) if False else Coefficient(V)
+        v = TestFunction(V)
+        J = (h + f * f * g) * dx + h * h * ds
+        return [ufl.derivative(J, f, v)]
+    return b
+
+
 def _blocked_symmetric():
     def b():
         m = mesh("triangle")
@@ -396,6 +446,28 @@ def _complex_sesq():
     return b
 
 
+def _complex_pow():
+    def b():
+        m, V = space("triangle", "P", 1)
+        v = TestFunction(V)
+        f = Coefficient(V)
+        g = Coefficient(V)
+        # complex base with real non-integer exponent, square root and exponential of complex data
+        return [(f**1.5 + ufl.sqrt(g) * ufl.exp(f) + g**2) * ufl.conj(v) * dx]
+    return b
+
+
+def _complex_const_conj():
+    def b():
+        m, V = space("triangle", "P", 1)
+        u, v = TrialFunction(V), TestFunction(V)
+        f = Coefficient(V)
+        c = Constant(m)
+        # complex constants / literals multiplying the TEST function sit inside the conjugated slot
+        return [inner(u, c * v) * dx + inner(u, (2 + 3j) * v) * dx, inner(f, c * v) * dx + inner(grad(f)[0], (1 - 2j) * c * v) * dx]
+    return b
+
+
 def fixed():
     E = Entry
     return [
@@ -418,6 +490,11 @@ def fixed():
         E("ext_facet_quad", _facet_ext("quadrilateral", 1), tags=("facet",)),
         E("int_facet_tri", _facet_int("triangle", 1), tags=("interior",)),
         E("int_facet_tet", _facet_int("tetrahedron", 1), tags=("interior",)),
+        E("int_facet_tri_p2", _facet_int("triangle", 2, "P"), tags=("interior",)),
+        E("int_facet_hex", _facet_int_hex(), tags=("interior",)),
+        E("int_facet_mixed", _facet_int_mixed(), tags=("interior", "mixed")),
+        E("int_facet_cellsize_tri", _facet_int_cellsize("triangle"), tags=("interior", "geometry")),
+        E("int_facet_cellsize_tet", _facet_int_cellsize("tetrahedron"), tags=("interior", "geometry")),
         E("int_facet_interval", _facet_int("interval", 1), tags=("interior",)),
         E("one_sided_dS", _one_sided_dS(), tags=("interior",)),
         E("int_facet_two_rules_a", _int_facet_two_rules(0), tags=("interior", "rules")),
@@ -437,6 +514,7 @@ def fixed():
         E("tensor_constant", _tensor_constant(), tags=("cell", "const")),
         E("tensor_constant_nonsquare", _tensor_constant_nonsquare(), tags=("cell", "facet", "const")),
         E("derivative_drop", _derivative_drop(), tags=("cell", "coef")),
+        E("derivative_drop_first", _derivative_drop_first(), tags=("cell", "coef")),
         E("symmetric_blocked", _blocked_symmetric(), tags=("cell", "blocked")),
         E("mini_enriched", _enriched_mini(), tags=("cell", "enriched")),
         E("real_element", _real_element(), tags=("cell", "real")),
@@ -452,6 +530,8 @@ def complex_forms():
     E = Entry
     return [E("complex_sesq", _complex_sesq(), tags=("cell", "complex")),
             E("complex_helmholtz", _complex_helmholtz(), tags=("cell", "facet", "complex")),
+            E("complex_pow", _complex_pow(), tags=("cell", "complex")),
+            E("complex_const_conj", _complex_const_conj(), tags=("cell", "complex")),
             E("complex_rhs_facets", _complex_rhs_facets(), tags=("cell", "facet", "interior", "complex"))]
 
 
@@ -515,6 +595,29 @@ def _expr_facet():
         n = FacetNormal(m)
         pts = np.array([[0.25], [0.75]])
         return [(f * n, pts)]
+    return b
+
+
+def _expr_facet_arg(cell):
+    def b():
+        m, V = space(cell, "P", 2)
+        u = TrialFunction(V)
+        f = Coefficient(V)
+        x = SpatialCoordinate(m)
+        pts = np.array([[0.2], [0.7], [0.45]]) if cell == "triangle" else np.array([[0.2, 0.1], [0.15, 0.6], [0.5, 0.3]])
+        return [(as_vector([u, x[0] * u.dx(1) + f * u]), pts)]
+    return b
+
+
+def _expr_derivative_drop_first():
+    def b():
+        m, V = space("triangle", "P", 2)
+        q = Coefficient(V)  # numbered first, vanishes in the derivative
+        u = Coefficient(V)
+        g = Coefficient(V)
+        du = TrialFunction(V)
+        pts = np.array([[0.3, 0.2], [0.1, 0.7]])
+        return [(ufl.derivative(q + g * u**2 + u.dx(0), u, du), pts)]
     return b
 
 
@@ -593,6 +696,9 @@ def expressions():
         E("expr_rank1", _expr_rank1(), kind="expression"),
         E("expr_tensor", _expr_tensor(), kind="expression"),
         E("expr_facet", _expr_facet(), kind="expression"),
+        E("expr_facet_arg_tri", _expr_facet_arg("triangle"), kind="expression"),
+        E("expr_facet_arg_tet", _expr_facet_arg("tetrahedron"), kind="expression"),
+        E("expr_derivative_drop_first", _expr_derivative_drop_first(), kind="expression"),
     ]
 
 
